@@ -10,6 +10,35 @@
 -/
 import Batchie.Lemmas.Thetas
 
+/-!
+## CLAUSE MAP (property text of C10 → theorems)
+
+| clause of the statement | stated by |
+|---|---|
+| "saving a collection and loading it back preserves the NUMBER … of the samples" | `C10_load_save` (`load f' = .ok h`: the very holder, so same declared size and same number); for the collections the code produces, without abstract hypotheses: `C10_filled_holder_roundtrip` |
+| "… the ORDER …" (≥ 10 samples: string versus numeric order of the group names) | `C10_numeric_sort_restores_order`, `C10_numeric_sort_payload` (any listing order of the names "0".."n-1", any n), used by `C10_load_save` for EVERY presentation `Presents f' f` of the file |
+| "… and EVERY PARAMETER VALUE of the samples bit-for-bit" | `C10_load_save` (a value is dtype, shape and the list of its bit patterns; attributes and datasets of a group listed in any order; the single-effect table incl. the empty one); as written: `C10_load_save_as_written` |
+| "so reloaded samples predict identically" | `C10_reload_predicts_identically` (any function of the samples) |
+| hypothesis `Saveable` (size invariant, one class, one table, distinct keys) holds of what the code builds | `C10_filled_holder_saveable` (filled by `add_theta` from ONE model instance, any history of table updates; `tableOfPairs_keys_nodup`); needed: the `example` with two tables |
+| "concatenating per-chain collections keeps chain-major order" | `C10_concat_chain_major` (all lists of holders; declared size = sum; refuses `[]`) |
+| "… which is exactly the order in which model evaluation labels prediction columns with chain ids" | `C10_chain_ids_aligned`, `C10_chain_ids_pointwise` (any list = any order of the files), from the files: `C10_evaluate_saved_files` |
+| "a collection refuses to grow beyond its declared size" | `C10_refusals` (1, 2), after concatenation: `C10_concat_preserves_fit`, `C10_concat_complete_refuses` |
+| "refuses out-of-range access" | `C10_refusals` (3: every `i < 0` or `i ≥ length`; 4: every in-range index is served), `C10_concat_complete_refuses` |
+| "refuses to be saved empty" | `C10_refusals` (5) |
+| quantifier: any float64 incl. denormals / float32-unrepresentable | values are opaque bit lists in `C10_load_save`: nothing is computed on them |
+| quantifier: all numbers of chains and samples per chain; all orders of the chain files | unbounded lists in every theorem; `C10_chain_ids_aligned` is for every list `hs` |
+| quantifier: both sample types, empty single-effect table | `Sample.combo / .inter`, `Table = []` allowed; satisfiability `example`s |
+
+harness-only (cannot be stated in this functional model):
+* HDF5 / h5py container fidelity (a dataset / attribute comes back with the dtype, shape and bytes it was given; gzip;
+  alphabetical listing) -- trusted, watched by the raw-file correspondence;
+* "no parameter is a 0-d numpy array" for `get_model_state` (hypothesis `storable`): a numpy-level fact;
+* aliasing: a result of combine/concat sharing its list with an operand, save_h5 mutating the arrays it stores, identity-keyed
+  caches on temporaries, a file that already exists at the path -- value semantics has no object identity (reuse, temporaries,
+  save-twice oracles of harness/c10.py);
+* that predictions computed by numpy from bit-identical parameters are bit-identical (numpy determinism; `run_predict`).
+-/
+
 namespace Batchie.Props.C10
 open Batchie.Proto Batchie.Thetas
 
@@ -58,6 +87,40 @@ theorem C10_load_save (h : Holder) (hne : h.thetas ≠ []) (hs : Saveable h) :
   | nil => exact absurd rfl hne
   | cons t0 rest =>
     exact load_save N t0 rest hs.fits (hs.same t0 (by simp)) hs.storable (hs.table t0 (by simp))
+
+/-- `Saveable` is DISCHARGED for the collections the code produces: a collection filled through
+`add_theta` (`fill`, the loop of `sampling.sample`) with states of ONE model instance `m` -- any
+class, any history of `single_effect_lookup.update(…)` behind its table -- satisfies `fits` (by
+`add_theta`'s refusal), `same` (the samples share the instance's table) and `table` (a dict built
+by insertions has distinct keys: `tableOfPairs_keys_nodup`).  What remains is `storable`: no
+parameter is a 0-d numpy array (`get_model_state` returns ≥ 1-d arrays and scalars -- a numpy-level
+fact the functional model cannot derive). -/
+theorem C10_filled_holder_saveable (m : Inst) (N : Nat) (ts : List Sample) (h : Holder)
+    (hfill : fill N ts = .ok h) (hem : ∀ t ∈ ts, m.emits t)
+    (hst : ∀ t ∈ ts, dictStorable t.privDict = true) :
+    h = ⟨N, ts⟩ ∧ Saveable h := by
+  obtain ⟨rfl, hlen⟩ := fill_ok N ts h hfill
+  refine ⟨rfl, ⟨?_, ?_, ?_, hst⟩⟩
+  · cases ts with
+    | nil => simp
+    | cons t ts => exact hlen (by simp)
+  · intro t0 ht0 t ht
+    have h0 : t0 ∈ ts := List.mem_of_mem_head? ht0
+    exact ⟨(hem t ht).1.trans (hem t0 h0).1.symm, (hem t ht).2.trans (hem t0 h0).2.symm⟩
+  · intro t0 ht0
+    have h0 : t0 ∈ ts := List.mem_of_mem_head? ht0
+    rw [(hem t0 h0).2]
+    exact m.table_keys_nodup
+
+/-- … hence the persistence statement without the abstract hypothesis: every non-empty collection
+filled by one model instance is saved, and every presentation of its file loads back to exactly
+that collection -/
+theorem C10_filled_holder_roundtrip (m : Inst) (N : Nat) (ts : List Sample) (h : Holder)
+    (hne : ts ≠ []) (hfill : fill N ts = .ok h) (hem : ∀ t ∈ ts, m.emits t)
+    (hst : ∀ t ∈ ts, dictStorable t.privDict = true) :
+    ∃ f, save h = .ok f ∧ ∀ f', Presents f' f → load f' = .ok h := by
+  obtain ⟨rfl, hs⟩ := C10_filled_holder_saveable m N ts h hfill hem hst
+  exact C10_load_save ⟨N, ts⟩ hne hs
 
 /-- in particular the file exactly as written -/
 theorem C10_load_save_as_written (h : Holder) (hne : h.thetas ≠ []) (hs : Saveable h) :
@@ -224,6 +287,16 @@ example : (∀ h ∈ [(⟨2, [tC 5, tC 6]⟩ : Holder), ⟨1, [tC 7]⟩], h.isCo
     (evaluate [⟨2, [tC 5, tC 6]⟩, ⟨1, [tC 7]⟩]).toOption = some [(0, tC 5), (0, tC 6), (1, tC 7)] ∧
     (evaluate [⟨1, [tC 7]⟩, ⟨2, [tC 5, tC 6]⟩]).toOption = some [(0, tC 7), (1, tC 5), (1, tC 6)] := by
   decide
+
+/-- the hypotheses of `C10_filled_holder_roundtrip` are satisfiable: an interaction model whose
+table was built by three insertions, one of them overwriting an earlier key (a later instalment of
+`add_observations`), emits two samples into a collection of declared size 3 -/
+example :
+    let m : Inst := ⟨.inter, [((0, -1), 7), ((0, 3), 9), ((0, -1), 8)]⟩
+    let t := fun (x : Int) => Sample.inter (v x) (v x) (s x) m.table
+    m.table = [((0, -1), 8), ((0, 3), 9)] ∧ (fill 3 [t 1, t 2]).toOption = some ⟨3, [t 1, t 2]⟩ ∧
+      m.emits (t 1) ∧ m.emits (t 2) ∧ dictStorable (t 1).privDict = true := by
+  refine ⟨by decide, by decide, ⟨rfl, rfl⟩, ⟨rfl, rfl⟩, by decide⟩
 
 /-- the hypothesis `same` is needed: the shared parameters are written from the first sample
 only, so a collection mixing two different single-effect tables does not survive the round trip
